@@ -98,16 +98,53 @@ class MEngine:
         return act
 
     def assume_inv(self, it, objs, cut):
-        cache = {}
-        for k in self.clauses_at(cut):
-            it.ctx.assume(self._cl.clause_z3(it, objs, clause_from_key(k), cache))
+        keys = self.clauses_at(cut)
+        cl = self._cl
+        conj = cl.conj_ph(keys, ("conj", cut, id(keys)))
+        it.ctx.assume(z3.substitute(conj, cl.literal_map(it, objs)))
 
     def check_inv(self, it, objs, cut):
-        cache = {}
-        forms = {k: self._cl.clause_z3(it, objs, clause_from_key(k), cache) for k in self.clauses_at(cut)}
-        bad = violated(it.ctx, forms)
-        if bad:
-            self._violated.setdefault(cut, set()).update(bad)
+        keys = self.clauses_at(cut)
+        if not keys:
+            return
+        cl = self._cl
+        lmap = cl.literal_map(it, objs)
+        parsed = self.__dict__.setdefault("_parsed_memo", {})
+        pk = ("parsed", cut, id(keys))
+        if pk not in parsed:
+            parsed[pk] = [(k, clause_from_key(k)) for k in keys]
+        remaining = parsed[pk]
+        s = it.ctx.solver
+        bad_all = []
+        first = True
+        while remaining:
+            conj = cl.conj_ph(keys, ("conj", cut, id(keys))) if first else \
+                z3.And([cl.clause_ph(c) for _, c in remaining])
+            first = False
+            s.push()
+            try:
+                s.add(z3.Not(z3.substitute(conj, lmap)))
+                r = guarded_check(s, 20000)
+                if r == z3.unsat:
+                    break
+                if r != z3.sat:
+                    bad_all += [k for k, _ in remaining]     # undecided: drop them (always sound)
+                    break
+                m = s.model()
+                val = {}
+                ph = cl.placeholders()
+                for (lit, e) in zip(ph.keys(), [x[1] for x in lmap]):
+                    val[lit] = z3.is_true(m.eval(e, model_completion=True))
+            finally:
+                s.pop()
+            bad = [k for k, c in remaining if all(val[l] for l in c)]
+            if not bad:
+                break
+            bad_all += bad
+            bs = set(bad)
+            remaining = [(k, c) for k, c in remaining if k not in bs]
+        if bad_all:
+            self._violated.setdefault(cut, set()).update(bad_all)
 
     # ---------------------------------------------------------------- loops inside cluster code
     def cluster_loop(self, it, s, fr, itv):
@@ -350,6 +387,7 @@ def explore_entry(eng, entry, inv, tier, t0, prefix=(), limit=None):
     while work:
         dec = work.pop()
         ctx = Ctx(dec, 3000)
+        ctx.eager = True
         outcome = "ok"
         try:
             v = eng.run_path(ctx, entry, inv)
@@ -368,7 +406,7 @@ def explore_entry(eng, entry, inv, tier, t0, prefix=(), limit=None):
             violated_all.setdefault(cut, set()).update(ks)
         cuts |= set(getattr(eng, "_cuts_seen", []))
         for vc in ctx.vcs:
-            r = solve.solve_vc(vc, timeout, use_cvc5=False)
+            r = getattr(vc, "verdict", None) or solve.solve_vc(vc, timeout, use_cvc5=False)
             cur = obs.get(r.name)
             rank = {"discharged": 0, "unknown": 1, "failed": 2}
             cti = None
